@@ -24,7 +24,9 @@ MANIFEST = dict(
               'read (write c) = c) + ast translator (ParsedLump/rebuild-order/reader/writer dependency graph, event order of '
               'ParsedLump.__get__ on every path, loop shape of BSP.save, reader-side lump stores, read-only/appending view uses, '
               'container constants) + vm_compute correspondences (traced get/save runs including raising looks; container model '
-              'vs BSP.read/BSP.save byte-exact in both directions) + round-trip oracle on real, synthesised and malformed BSPs',
+              'vs BSP.read/BSP.save byte-exact in both directions) + per-view codec premises re-derived from the view codecs that C11\'s '
+              'translators generate from bsp.py (154 kernel-checked obligations grouped by view) + round-trip oracle on real, '
+              'synthesised (adversarial-but-valid table contents) and malformed BSPs',
     text='Theorems in Props/C10.v, for every dependency graph g with order_consistent g = true, every __get__/save shape sh with '
          'shape_ok sh = true and every sequence of view accesses, including accesses whose reader raises and is caught: a look '
          'succeeds or fails only because some reader rejects the file\'s data (never for lack of fuel); a failed look leaves the '
@@ -50,7 +52,17 @@ MANIFEST = dict(
          'container and layout with LZMA as an inverse pair (header, 64-row table in standard and L4D2 field order, revision, '
          'payload placement in write order, game-lump directory with absolute offsets, NUL separators and the dummy entry); '
          'four wf conditions shown necessary. order_consistent bsp_graph, shape_ok bsp_shape, layout_ok bsp_layout, '
-         'bsp_layout = std_layout and 24 further named obligations are re-derived from bsp.py and kernel-checked on every run.',
+         'bsp_layout = std_layout and 24 further named obligations are re-derived from bsp.py and kernel-checked on every run. '
+         'Round 4: c10_property states the whole property once, with one codec premise per view (codec_ok_at: on the value the reader '
+         'makes of THIS file\'s lumps the writer\'s output reads back equal and has one datum per owned lump): graph, shape and '
+         'writers-look conditions + the premises give, for every access sequence, that save completes, empties the cache, keeps every '
+         'view\'s content, keeps unowned lumps and the lumps of views outside the dependency closure byte-identical and is idempotent. '
+         'For the texture-name view the premise is PROVED from the object generated from _lmp_write_textures/_lmp_read_textures '
+         '(C11\'s tex_cfg): texcfg_ok (pool searched for name+NUL, name+NUL appended, guard below the window) and '
+         'texcfg_window_is_guard (every name the reader can return passes the writer\'s guard) imply the premise for every content '
+         'of the two lumps; seeded c10_5 (bare-name search) refuted in closed form. For the other views the premise is supported by '
+         'C11\'s obligations over the generated records, formats, dedup keys, bit fields, entity template and visibility rows, '
+         'discharged here per view on every run (codec[<views>]:<name>); pakfile has none.',
     note='Assumed in the theorems (visible hypotheses): each lump writer inverts its reader on the file\'s lumps (codec_ok, '
          'wr_len_ok: property C11); decompress (compress d) = d (CPython lzma). The container theorem is about the model '
          'Fmt/BspContainer.v, tied to BSP.read/BSP.save by byte-exact correspondence on random containers (not by a translator of '
@@ -61,7 +73,13 @@ MANIFEST = dict(
          'conditionally by the three face writers) is modelled under the visible hypothesis side_ok, whose data half (the ids '
          'written are the bytes of the file) is checked by the oracle only, on FACEIDS lumps that are full, all zero, empty and '
          'shorter than the face array; a FACEIDS lump LONGER than the face array (no compiler writes one) is cut to the face '
-         'count by a look at faces + save (same parsed content, different bytes): outside the inputs searched. Hidden mutations: '
+         'count by a look at faces + save (same parsed content, different bytes): in the default search since round 4, recorded as '
+         'known finding raw-changed:FACEIDS|viewed=faces|input:faceids=long. Per-view codec premises: only the texture-name view '
+         'has a theorem from the generated object to the premise; for the other views C11\'s obligations are necessary conditions '
+         'tied to C11\'s theorems about assigned values, the step to "values read from this file" (every reference resolves into its '
+         'table, values the reader returns fit the writer\'s formats) is searched only; C11\'s translators are used unchanged, so a '
+         'refactoring they cannot classify alarms here too. Texture names that differ only in case are outside the inputs (the '
+         'texinfo writer de-duplicates names case-insensitively, as the compilers do). Hidden mutations: '
          'the translator lists the (reader, view) pairs by a taint analysis (may-analysis of direct attribute/item stores and '
          'mutating method calls, followed through BSP methods; changes made inside other classes\' methods are not seen) and '
          'the check pins the list; for (bmodels, ents) the graph hypotheses of the theorem and "nothing that can raise follows '
@@ -1034,7 +1052,13 @@ def run(ck: Ck) -> None:
                'compressed / extra game lumps, missing aux lumps, FACEIDS variants, no origin vertex, water, vis; side lumps '
                '(OVERLAY_FADES, OVERLAY_SYSTEM_LEVELS, LEAFMINDISTTOWATER, LEAFFACES, LEAFBRUSHES, PRIMINDICES, PRIMVERTS, '
                'BRUSHSIDES, TEXDATA, TEXDATA_STRING_TABLE) at the values where they look unused: all zero, the reader\'s defaults '
-               'for an absent lump, first record zero, all bits set, optional side lumps absent); histories: '
+               'for an absent lump, first record zero, all bits set, optional side lumps absent); every synthesised file has '
+               'adversarial-but-valid table contents (texture names that are prefix / inner substring / tail of an earlier name, a '
+               '127-character name, two table entries for one string, exact and near duplicates of texdata / texinfo / planes / '
+               'vertexes / edges, prop and detail-prop dictionaries with prefix and unused names, entity text that needs escaping); '
+               'static-prop layouts V4..V13, lightmapped and Black Mesa chosen by the game-lump version; empty prop / detail / overlay '
+               '/ cubemap tables; LZMA blobs with foreign parameters, small dictionary field and trailing NUL; FACEIDS longer than '
+               'the face array; the bundled map also with an adversarial texture-name table; histories: '
                'no access, every single view, every ordered pair on the default file, random subsets and orders, all views '
                'forwards/backwards, 1-3 look/save cycles; 9 malformed inputs (unknown static-prop version, stray bytes in the prop '
                'lump, unterminated entity, entity naming a missing brush model, texinfo naming a missing texdata, truncated detail props / overlays, also LZMA-compressed) '
@@ -1047,7 +1071,11 @@ def run(ck: Ck) -> None:
     ck.assumptions.append('decompress (compress d) = d (hypothesis of c10_container_roundtrip); appends by writers to views they '
                           'look at are no-ops on values parsed from the file (C11 find_or_insert_sound + table completeness)')
     ck.assumptions.append('codec_ok / wr_len_ok (each writer inverts its reader on the lumps of the file: C11) are hypotheses of '
-                          'the theorems; the oracle checks them end to end on the sample inputs only')
+                          'the theorems, one premise per view in c10_property; proved from the generated object for the texture-name '
+                          'view, supported by C11\'s generated-object obligations (re-derived here on every run) for the others, '
+                          'checked end to end by the oracle on the inputs')
+    ck.trusted.append('translate/c11_formats.py, translate/c11_glue.py (and the c11_* modules they use) and checks.c11.glue_obligations: '
+                      'C11\'s translators and obligation expressions, used unchanged for the per-view codec premises')
     import time
     memoise_lzma()
     work = ck.scratch / 'bsp'
@@ -1424,6 +1452,9 @@ def run(ck: Ck) -> None:
         for nm, ok in codec.items():
             if not ok:
                 ck.explain('instance:' + nm)
+        # C11's translators failing closed on a changed codec: the per-view premises could not be re-derived
+        ck.explain('translate:BspGlue_gen')
+        ck.explain('translate:BspFormats_gen')
 
 
 def replay(data: dict) -> int:
